@@ -720,6 +720,15 @@ func mapNonNil(prog *load.Program, info *types.Info, fd *ast.FuncDecl, m ast.Exp
 									_ = r
 								case *ast.CompositeLit:
 									set++
+								case *ast.Ident:
+									// a local of the constructing function that holds a made map
+									for _, d := range f.Decls {
+										if efd, ok := d.(*ast.FuncDecl); ok && efd.Body != nil && within(efd, r) {
+											if ok, _ := mapNonNil(prog, pk.TypesInfo, efd, r); ok {
+												set++
+											}
+										}
+									}
 								}
 							}
 						}
@@ -843,7 +852,19 @@ func commaOkDerefs(prog *load.Program, info *types.Info, fd *ast.FuncDecl, f *cf
 				}
 				return ev(cond)
 			}
-			if !reachable(f, sel, dec) {
+			// a site inside a function literal is judged on the literal's own flow graph
+			ff := f
+			var inner *ast.FuncLit
+			ast.Inspect(fd.Body, func(y ast.Node) bool {
+				if fl, ok := y.(*ast.FuncLit); ok && within(fl, sel) {
+					inner = fl
+				}
+				return true
+			})
+			if inner != nil {
+				ff = cfgx.New(info, &ast.FuncDecl{Name: ast.NewIdent(fd.Name.Name + "$lit"), Type: inner.Type, Body: inner.Body})
+			}
+			if !reachable(ff, sel, dec) {
 				s.ok, s.reason = true, "unreachable when "+okVar.Name()+" is false"
 			} else {
 				s.reason = "reachable although " + okVar.Name() + " may be false"
@@ -958,7 +979,14 @@ func recursionSites1(prog *load.Program) []*panicSite {
 			s.text = "recursive call " + load.FuncName(e.to) + "(" + args + ")"
 			// structural: some argument is an accessor chain (only structural accessors) rooted at a variable
 			// bound by the enclosing type switch
-			for _, a := range e.call.Args {
+			for i, a := range e.call.Args {
+				if e.call.Ellipsis.IsValid() && i == len(e.call.Args)-1 {
+					// a spread list: every element is a strict component
+					if componentList(prog, e.info, e.fd, a, 0) {
+						s.ok, s.reason = true, "every element of the list "+types.ExprString(a)+"... is a strict component of the value being switched on"
+					}
+					continue
+				}
 				if structuralFrom(prog, e.info, e.fd, a, true, 0) {
 					s.ok, s.reason = true, "the argument "+types.ExprString(a)+" is a strict component of the value being switched on"
 				}
@@ -1003,6 +1031,8 @@ type structKey struct {
 }
 
 var structMemo = map[structKey]int{} // 0 unknown, 1 in progress / false, 2 true
+var structNest int
+var structNeg []structKey
 
 func structuralFrom(prog *load.Program, info *types.Info, fd *ast.FuncDecl, a ast.Expr, needAccessor bool, depth int) bool {
 	if depth > 9 {
@@ -1016,9 +1046,23 @@ func structuralFrom(prog *load.Program, info *types.Info, fd *ast.FuncDecl, a as
 		return true
 	}
 	structMemo[key] = 1
+	structNest++
 	r := structuralFrom1(prog, info, fd, a, needAccessor, depth)
+	structNest--
 	if r {
 		structMemo[key] = 2
+	} else {
+		// a negative answer may rest on a cut cycle or on the depth limit of the outermost query: it is
+		// kept for the rest of that query only
+		structNeg = append(structNeg, key)
+	}
+	if structNest == 0 {
+		for _, k := range structNeg {
+			if structMemo[k] == 1 {
+				delete(structMemo, k)
+			}
+		}
+		structNeg = structNeg[:0]
 	}
 	return r
 }
@@ -1761,7 +1805,13 @@ func CheckRecursionFanout(run *core.Run, prog *load.Program) {
 					ast.Inspect(a, func(x ast.Node) bool {
 						if id, ok := x.(*ast.Ident); ok {
 							if v, ok := info.ObjectOf(id).(*types.Var); ok && !v.IsField() {
-								txt += fmt.Sprintf("@%d", v.Pos())
+								// by object, not by position: the symbol of a type switch is one object per clause
+								k, seen := fanoutObjIDs[v]
+								if !seen {
+									k = len(fanoutObjIDs) + 1
+									fanoutObjIDs[v] = k
+								}
+								txt += fmt.Sprintf("@%d", k)
 							}
 						}
 						return true
@@ -2571,3 +2621,5 @@ func accessorIterator(prog *load.Program, info *types.Info, e ast.Expr, two bool
 	}
 	return recv, true
 }
+
+var fanoutObjIDs = map[types.Object]int{}
